@@ -4,7 +4,47 @@ from ..gen import KEY_POOL, rng_for
 from . import c03
 
 ENGINES = ["memkv", "badger", "tikv"]
-EXTRA_PROP_MODULES = [("KB.Props.C02Store", "KB.C02Store")]
+EXTRA_PROP_MODULES = [("KB.Props.C02Store", "KB.C02Store"), ("KB.Props.OrderC15", "KB.OrderC15")]
+
+
+def lag_case(seed, i, engine):
+    """a node whose revision counters stand BELOW revisions already stored for the keys (a deposed leader that has
+    not noticed yet): whatever it answers, a key's history must stay strictly increasing and no header may be below
+    the data it carries"""
+    from ..gen import PREFIX, hx
+    r = rng_for(seed, "c02lag/%d" % i)
+    keys = r.sample([k for k in KEY_POOL if b"events" not in k][:8], r.randint(2, 3))
+    sh = hist.Shadow()
+    lines = [hist.cfg_line(engine)]
+    lines += hist.gen_writes(r, sh, r.randint(4, 10), keys, p_ok=0.9)
+    lines += ["rev", "lowrev %d" % (hist.INIT + r.randint(0, max(0, sh.dealt - hist.INIT - 1)))]
+    for k in keys:
+        cur = sh.keys.get(k)
+        currev = cur[0] if cur else 0
+        opts = ["delete %s 0" % hx(k), "delete %s %d" % (hx(k), currev), "update %s %s %d" % (hx(k), hx(b"low"), currev),
+                "create %s %s" % (hx(k), hx(b"low"))]
+        r.shuffle(opts)
+        for o in opts[:r.randint(2, 4)]:
+            lines += [o, "rev", "get %s 0" % hx(k)]     # `rev` waits for the sequencer (expected-guided)
+    lines += ["list %s %s 0 0" % (hx(PREFIX + b"/"), hx(PREFIX + b"0")), "dump"]
+    return core.Case("backend", lines, {"engine": engine, "lag": True})
+
+
+def lag_oracle(case):
+    newest = {}
+    for i, (line, out) in enumerate(zip(case.lines, case.impl)):
+        t, o = line.split(), out.split()
+        if t[0] in ("create", "update", "delete") and len(o) >= 3 and o[1] == "ok":
+            k, rev = t[1], int(o[2])
+            if k in newest and rev <= newest[k]:
+                return ("line %d: `%s` succeeded with revision %d although key %s already has a version at revision %d: "
+                        "the key's history is not strictly increasing" % (i + 1, line, rev, k, newest[k]), "key-history-not-increasing")
+            newest[k] = rev
+            if t[0] == "delete" and len(o) >= 4 and "@" in o[3]:
+                kvrev = int(o[3].rsplit("@", 1)[1])
+                if kvrev > rev:
+                    return ("line %d: `%s` answered header %d below the revision %d of the kv it carries" % (i + 1, line, rev, kvrev), "header-lt-data")
+    return None
 
 
 def check(rep, tier, seed):
@@ -20,7 +60,18 @@ def check(rep, tier, seed):
     # of the LOSER of a race carries the winner's kv - its header must cover it
     from . import c01
     cases += c01.exhaustive_pairs(seed, "memkv")
-    core.run_cases(cases + seqs)
+    lags = [lag_case(seed, i, ENGINES[i % 3]) for i in range(9 if tier == "quick" else 150)]
+    core.run_cases(cases + seqs + lags)
+    for c in lags:
+        rep.count_case(c)
+        hit = lag_oracle(c)
+        if hit:
+            if core.handle_oracle_hit(rep, "C02", hit[1], c, hit[0], hit[1]):
+                return
+            continue
+        if c.diff() is not None:
+            core.handle_diff(rep, "C02", "correspondence-lag", c)
+            return
     for c in cases:
         rep.count_case(c)
         hit = sched.oracle_c02(c)
